@@ -3,6 +3,7 @@
 //! models and whole-index audits after every block.
 
 pub mod configs;
+pub mod crash;
 pub mod events;
 pub mod inscriptions;
 pub mod reorg;
